@@ -36,6 +36,14 @@ def gen_case(case_seed, cfg, modes=None, delays_in_plain=True, plain_delay_p=0.1
     return case
 
 
+def has_delayed_reactants(model):
+    return any(rx.get("delay") and (rx["delay"].get("reactants") or []) for rx in model["reactions"])
+
+
+def netgen_all_mass_action(model):
+    return all(rx["type"] == "massaction" for rx in model["reactions"])
+
+
 def event_budget_ok(case, budget=150000):
     """Mean-field estimate of the number of firings over the whole grid, at the largest volume the run can reach."""
     vol = None
@@ -96,10 +104,18 @@ def _gen_case(case_seed, modes, delays_in_plain=True, plain_delay_p=0.15, far_p=
         kinds += [k for k in ("neg_delay", "late_delay") if r.random() < 0.5]
     script = eng.gen_script(r, kinds) if kinds and r.random() < 0.6 else []
     entry = "direct" if (mode == "delayvolume" or (vol and vol.get("spec"))) else r.choice(["direct", "model"])
+    prelude = None
+    if r.random() < 0.25:
+        # deterministic preludes need a model that stays in the non-negative domain under the ODE: mass action only
+        opts = ["ssa", "volume", "delay", "delayvolume", "safe"] + (["det"] if netgen_all_mass_action(model) else [])
+        if has_delayed_reactants(model):
+            opts = ["delay", "delayvolume"] if mode in ("delay", "delayvolume") else ["ssa", "volume", "safe"]
+        prelude = r.choice(opts)
     if nonuniform and len(grid) >= 3 and any(abs((grid[i + 1] - grid[i]) - (grid[1] - grid[0])) > 1e-12 for i in range(len(grid) - 1)):
         kinds = kinds + ["nonuniform_grid"]
     return {"model": model, "grid": grid, "mode": mode, "safe": safe, "entry": entry, "vol": vol,
-            "bseed": seeds.bioscrape_seed(case_seed, "run"), "script": script, "kinds": kinds, "stratum": stratum}
+            "bseed": seeds.bioscrape_seed(case_seed, "run"), "script": script, "kinds": kinds, "stratum": stratum,
+            "prelude": prelude}
 
 
 def fault_counters(case, raw, ref, stats):
@@ -134,6 +150,8 @@ def fault_counters(case, raw, ref, stats):
             stats["fired_tiny_delay"] = stats.get("fired_tiny_delay", 0) + 1
         if any(d > grid[-1] for _, d in ref.delays):
             stats["fired_late_delay"] = stats.get("fired_late_delay", 0) + 1
+    if case.get("prelude"):
+        stats["fired_prelude_" + case["prelude"]] = stats.get("fired_prelude_" + case["prelude"], 0) + 1
     if "nonuniform_grid" in case.get("kinds", []):
         stats["fired_nonuniform_grid"] = stats.get("fired_nonuniform_grid", 0) + 1
     if raw.get("script_used"):
@@ -171,6 +189,8 @@ def crash_signature(case):
 def shrink(case):
     m = case["model"]
     # prefer seeded over scripted
+    if case.get("prelude"):
+        yield dict(case, prelude=None)
     if case.get("script"):
         c = dict(case, script=[])
         yield c
